@@ -537,7 +537,7 @@ def run(ctx):
     core_fs = fs8 if not ctx.quick else sorted(rng.sample(fs8, 3) + [0.5])
     cases = list(exhaustive_small_tables(core_fs))
     run_tables(ctx, cases, exact=True, origin="exhaustive_small", style_rng=rng)
-    n_rand = ctx.pick(300, 4500)
+    n_rand = ctx.pick(300, 4000)
     cases = [random_table(rng, dyadic_factor(rng), big=(i % 25 == 0)) for i in range(n_rand)]
     for j in range(0, len(cases), 500):
         run_tables(ctx, cases[j:j + 500], exact=True, origin="random_exact", style_rng=rng)
